@@ -51,6 +51,10 @@ type GCase struct {
 	MapSeed   uint64    `json:"map_seed,omitempty"`
 	Race      bool      `json:"race,omitempty"`
 	Cold      bool      `json:"cold,omitempty"` // concurrent run first, references afterwards (cold package state)
+	// freeze strategy, see simrt.Config
+	FreezeClient int `json:"freeze_client,omitempty"`
+	FreezeAt     int `json:"freeze_at,omitempty"`
+	Procs        int `json:"procs,omitempty"` // value of woven GOMAXPROCS(0)/NumCPU() in the scheduled run (the reference uses 1)
 }
 
 type Job struct {
@@ -214,7 +218,7 @@ func solo(t *testing.T, c GClient, mapSeed uint64, race bool) GenResult {
 			}
 		}()
 		synctest.Test(t, func(t *testing.T) {
-			res := simrt.Run(simrt.Config{ActiveNum: 0, ActiveDen: 1, MapSeed: mapSeed}, []simrt.Client{{Name: "c0", Run: func() { r = generate(c, nil) }}})
+			res := simrt.Run(simrt.Config{ActiveNum: 0, ActiveDen: 1, MapSeed: mapSeed, Procs: 1}, []simrt.Client{{Name: "c0", Run: func() { r = generate(c, nil) }}})
 			if len(res.Stderr) > 0 {
 				r.Stderr = res.Stderr[0]
 			}
@@ -293,7 +297,7 @@ func runCase(t *testing.T, c GCase, keepLog bool) (out Outcome) {
 					clients = append(clients, simrt.Client{Name: fmt.Sprintf("c%d", i), Run: func() { got[i] = generate(cl, nil) }})
 				}
 				res = simrt.Run(simrt.Config{Tape: c.SchedTape, ActiveNum: c.ActiveNum, ActiveDen: c.ActiveDen, SiteSeed: c.SiteSeed,
-					Budget: c.Budget, MapSeed: c.MapSeed, KeepLog: keepLog}, clients)
+					Budget: c.Budget, MapSeed: c.MapSeed, KeepLog: keepLog, FreezeClient: c.FreezeClient, FreezeAt: c.FreezeAt, Procs: c.Procs}, clients)
 			})
 		}()
 		if out.Skipped != "" {
@@ -319,6 +323,7 @@ func runCase(t *testing.T, c GCase, keepLog bool) (out Outcome) {
 		if res.Abandoned {
 			out.Stats["abandoned"] = 1
 		}
+		out.Stats["freeze_windows_opened"] += res.Thawed
 		out.Nontrivial = res.Preemptions > 0
 		out.Sig = res.LogHash
 		out.Log = res.Log
@@ -391,18 +396,24 @@ func genCase(seed uint64, i int, race bool, cold bool) GCase {
 	if r.Chance(1, 2) {
 		c.MapSeed = r.Uint64() | 1
 	}
+	c.Procs = []int{1, 2, 3, 4, 7, 8, 16, 64}[r.Intn(8)]
+	if len(c.Clients) > 1 && r.Chance(1, 2) {
+		c.FreezeClient = r.Intn(len(c.Clients))
+		c.FreezeAt = 1 + int(r.Float()*r.Float()*3000)
+	}
 	return c
 }
 
 func memWatchdog() {
 	limit := uint64(4 << 30)
 	go func() {
-		s := []metrics.Sample{{Name: "/memory/classes/total:bytes"}}
+		// memory in use = everything mapped minus what was given back to the OS
+		s := []metrics.Sample{{Name: "/memory/classes/total:bytes"}, {Name: "/memory/classes/heap/released:bytes"}}
 		for {
 			time.Sleep(50 * time.Millisecond)
 			metrics.Read(s)
-			if s[0].Value.Uint64() > limit {
-				fmt.Fprintf(os.Stderr, "memory watchdog: %d MB in use, limit %d MB\n", s[0].Value.Uint64()>>20, limit>>20)
+			if used := s[0].Value.Uint64() - s[1].Value.Uint64(); used > limit {
+				fmt.Fprintf(os.Stderr, "memory watchdog: %d MB in use, limit %d MB\n", used>>20, limit>>20)
 				os.Exit(77)
 			}
 		}
